@@ -1,6 +1,6 @@
 (** C08 — selecting rows by condition is exact, with or without indexes.
     Statements only; proofs in Cache/SelectProofs.v and Upd/CondProofs.v. *)
-From LOV Require Import Cache.SelectProofs Upd.CondProofs.
+From LOV Require Import Cache.SelectProofs Upd.CondProofs Cli.CondApi Cli.CondApiProofs Cache.IndexProofs.
 
 (** RowsByCondition — the pre-filter through every schema / client index
     (power set of indexable conditions, intersections, early exits) followed by
@@ -59,3 +59,73 @@ Print Assumptions C08_int_gt.
 Theorem C08_int_ge : forall x y, eval_fun (VAtom (AInt x)) CGe (VAtom (AInt y)) = true <-> (x >= y)%Z.
 Proof. exact eval_int_ge. Qed.
 Print Assumptions C08_int_ge.
+
+(** * the conditional API (client/api.go, client/condition.go)
+
+    What List() reports: WhereAll - the rows satisfying every condition;
+    WhereAny - the rows satisfying some condition; for every cache state with
+    the index invariant and every index configuration. *)
+Theorem C08_where_all_means_all : forall T specs c, Inv T specs c -> forall cs u,
+  u ∈ matches T specs c (CExplicit [cs]) <->
+  exists r, rc_rows c !! u = Some r /\ Forall (fun cd => eval_cond_row u r cd = true) cs.
+Proof. exact where_all_is_all. Qed.
+Print Assumptions C08_where_all_means_all.
+
+Theorem C08_where_any_means_any : forall T specs c, Inv T specs c -> forall cs u,
+  u ∈ matches T specs c (CExplicit (map (fun cd => [cd]) cs)) <->
+  exists r cd, rc_rows c !! u = Some r /\ cd ∈ cs /\ eval_cond_row u r cd = true.
+Proof. exact where_any_is_any. Qed.
+Print Assumptions C08_where_any_means_any.
+
+(** Where(model) without a cache hit sends equality on [_uuid] or on the first
+    schema index all of whose columns are set in the model; on a synchronised
+    cache those conditions select no row (so List() = {} is what executes) *)
+Theorem C08_where_model_without_hit : forall T specs c,
+  Inv T specs c ->
+  Forall (fun idx => exists i s, specs !! i = Some s /\ i_cols s = map (fun col => (col, None)) idx) (t_indexes T) ->
+  find_col T ucol = None ->
+  forall m cs, rbm_step T specs c ∅ m = ∅ -> model_eq_conds T m = Some cs -> filter_rows (rc_rows c) cs = ∅.
+Proof. exact model_nohit_selects_nothing. Qed.
+Print Assumptions C08_where_model_without_hit.
+
+(** The operations a conditional generates (Delete / Update / Mutate), executed
+    by the transaction engine on a database the cache is synchronised with,
+    affect exactly the rows List() reports: the counts add up to their number,
+    every listed row is transformed by the row operation, every other row and
+    every other table is left as it was - for models, explicit conditions and
+    predicates, with or without cache hits. *)
+Theorem C08_api_affects_exactly_listed : forall S T,
+  find_table S (t_name T) = Some T -> forall specs c,
+  Inv T specs c ->
+  Forall (fun idx => exists i s, specs !! i = Some s /\ i_cols s = map (fun col => (col, None)) idx) (t_indexes T) ->
+  find_col T ucol = None -> forall d,
+  get_tbl d (t_name T) = rc_rows c ->
+  forall cd k conds d0,
+  generate T specs c cd = Some conds ->
+  Forall (fun wh => conds_valid T wh = true) conds ->
+  (forall u r, u ∈ matches T specs c cd -> rc_rows c !! u = Some r -> exists n, kind_f T k r = Ok n) ->
+  exists rs d',
+    exec_ops S d0 d (map (api_op T k) conds) = (rs, d', true) /\
+    sum_counts rs = size (matches T specs c cd) /\
+    (forall u, u ∉ matches T specs c cd -> get_tbl d' (t_name T) !! u = rc_rows c !! u) /\
+    (forall u r n, u ∈ matches T specs c cd -> rc_rows c !! u = Some r -> kind_f T k r = Ok n ->
+                   get_tbl d' (t_name T) !! u = n) /\
+    (forall t', t' <> t_name T -> get_tbl d' t' = get_tbl d t').
+Proof. exact api_affects_exactly_listed. Qed.
+Print Assumptions C08_api_affects_exactly_listed.
+
+Theorem C08_api_delete_exact : forall S T,
+  find_table S (t_name T) = Some T -> forall specs c,
+  Inv T specs c ->
+  Forall (fun idx => exists i s, specs !! i = Some s /\ i_cols s = map (fun col => (col, None)) idx) (t_indexes T) ->
+  find_col T ucol = None -> forall d,
+  get_tbl d (t_name T) = rc_rows c ->
+  forall cd conds d0,
+  generate T specs c cd = Some conds ->
+  Forall (fun wh => conds_valid T wh = true) conds ->
+  exists rs d',
+    exec_ops S d0 d (map (api_op T ADelete) conds) = (rs, d', true) /\
+    sum_counts rs = size (matches T specs c cd) /\
+    forall u, get_tbl d' (t_name T) !! u = if decide (u ∈ matches T specs c cd) then None else rc_rows c !! u.
+Proof. exact api_delete_exact. Qed.
+Print Assumptions C08_api_delete_exact.
